@@ -29,7 +29,6 @@ NOT_APPLICABLE = {
  "C17": "Agreement with the PNG/TIFF predictor specifications is numeric behaviour.",
  "C19": "Write/read graph isomorphism quantifies over document contents.",
  "C21": "'Every output validates' quantifies over operation parameters and document contents; validator acceptance is runtime behaviour.",
- "C24": "Conformance of O/U/OE/UE/Perms and key derivation to the ISO 32000 algorithms is cryptographic value computation.",
  "C32": "Page operations vs a reference model over operation histories: content-level.",
  "C33": "Page-sequence preservation of split/merge: content-level arithmetic on page lists.",
  "C34": "Booklet/n-up placement is combinatorial arithmetic over page counts and configurations.",
